@@ -156,7 +156,7 @@ def body(chk: check.Check):
             continue
         chk.count(('integrand', desc), val['n'])
         for m in val['mismatches']:
-            chk.violation('integrand:' + m['what'][:40], dict(formula=desc, ops=rec['ops'], **m), match=dict(kind='value', features=exprenv.features(rec['ops'], rec['root'], len(dpool.leaves))))
+            chk.violation('integrand:' + m['what'][:40], {**dict(formula=desc, ops=rec['ops']), **m}, match=dict(kind='value', features=exprenv.features(rec['ops'], rec['root'], len(dpool.leaves))))
     chk.extra['general_integrands'] = len(ints)
     results = par.pmap(replay_calc, cases, chunk=25, timeout=900)
     for case, (st, val) in zip(cases, results):
@@ -166,7 +166,7 @@ def body(chk: check.Check):
             continue
         chk.count(str(case), val['n'])
         for m in val['mismatches']:
-            chk.violation('calculus:' + m['what'][:50], dict(case=case, **m), match=dict(kind='value', family=case['kind']))
+            chk.violation('calculus:' + m['what'][:50], {**dict(case=case), **m}, match=dict(kind='value', family=case['kind']))
     for seed in (chk.seed % 100000 + 1, 12345):
         st, val = rt.forked(reproducible, seed)
         chk.evaluations += 1
